@@ -24,7 +24,7 @@ def table_dirs(mversion=33, local=None):
 
 def base_consts(dirs=None, mversion=33, local=None, **over):
     c = {'Cases': '<<>>', 'Editions': '{4}', 'Compressions': '{FALSE}', 'SubsetCounts': '{1}', 'Fmax': '0', 'Seeds': '{0}',
-         'Slack': '0', 'ValueMode': '"classes"', 'Mode': '"produce"', 'ResetPolicy': '"fm94"', 'NulStrings': 'FALSE',
+         'Slack': '0', 'ValueMode': '"classes"', 'Mode': '"produce"', 'ResetPolicy': '"fm94"', 'NulStrings': 'FALSE', 'NestedAssoc': 'FALSE',
          'TableDirs': tlc.tla_val(list(dirs or table_dirs(mversion, local))), 'ExtraB': '<<>>', 'ExtraD': '<<>>',
          'MasterVersion': str(mversion), 'LocalVersion': str(local[2] if local else 0),
          'Centre': str(local[0] if local else 0), 'SubCentre': str(local[1] if local else 0), 'IdentVariant': '0'}
@@ -38,12 +38,13 @@ def tla_set(xs):
 
 def gen_run(wd, name, templates, editions=(4,), compressions=(False, True), subset_counts=(1, 2),
             fmax=2, seeds=(0,), slack=0, mversion=33, local=None, reset='fm94', invariants=None, value_mode='classes', emit='Emit', properties=(),
-            workers=16, timeout=3000, coverage=False, identv=0):
+            workers=16, timeout=3000, coverage=False, identv=0, nested_assoc=False):
     consts = base_consts(
         Cases='<<' + ', '.join('[ids |-> %s]' % tlc.tla_val(list(t)) for t in templates) + '>>',
         Editions=tla_set(editions), Compressions=tla_set(compressions), SubsetCounts=tla_set(subset_counts),
         Fmax=str(fmax), Seeds=tla_set(seeds), Slack=str(slack), Mode='"produce"', ResetPolicy=tlc.tla_str(reset),
-        ValueMode=tlc.tla_str(value_mode), dirs=table_dirs(mversion, local), mversion=mversion, local=local, IdentVariant=str(identv))
+        ValueMode=tlc.tla_str(value_mode), dirs=table_dirs(mversion, local), mversion=mversion, local=local, IdentVariant=str(identv),
+        NestedAssoc='TRUE' if nested_assoc else 'FALSE')
     text = tlc.mc_module(name, ['FM94Gen'], consts)
     invs = list(invariants if invariants is not None else
                 ['TypeOK', 'MissingIffAllOnes', 'LinksPointBack', 'CursorIsSumOfWidths',
